@@ -401,7 +401,7 @@ def run(ctx):
                      'envelope interpolants: NOT proved, watched by the oracle sweep only (regression guard)')
     ctx.notes.append('emd conversions are compared with tolerance (the code multiplies by the double 2*pi); exact comparisons are '
                      'the numpy/scipy primitives on dyadic data, the quadrature sign rule, shapes and the phase range')
-    ctx.proof()
+    ctx.proof(extra=['props/Prop_Tie_Freq.v'])  # translation tie: program regenerated from the source + refinement theorems
     rs = np.random.RandomState(seed32(ctx, 1))
     bad = None          # first correspondence disagreement (site, input, observed, expected)
     reported = set()
